@@ -1008,7 +1008,13 @@ func (b *Builder) genHook(m *Method, kind string, srcT, dstT string) {
 		params = renderIn("m", params)
 	}
 	var fn string
-	if withErr {
+	// a hook may also be a package-level VARIABLE of function type
+	asVar := !inM && b.chance(0.15)
+	if asVar && withErr {
+		fn = fmt.Sprintf("var %s = func(%s) error {\n\tvtr.Enter(%q, %s)\n\tif vtr.Fail(%q) {\n\t\treturn vtr.ErrOf(%q)\n\t}\n\treturn nil\n}\n", fname, params, site, args, site, site)
+	} else if asVar {
+		fn = fmt.Sprintf("var %s = func(%s) {\n\tvtr.Enter(%q, %s)\n}\n", fname, params, site, args)
+	} else if withErr {
 		fn = fmt.Sprintf("func %s(%s) error {\n\tvtr.Enter(%q, %s)\n\tif vtr.Fail(%q) {\n\t\treturn vtr.ErrOf(%q)\n\t}\n\treturn nil\n}\n", fname, params, site, args, site, site)
 	} else {
 		fn = fmt.Sprintf("func %s(%s) {\n\tvtr.Enter(%q, %s)\n}\n", fname, params, site, args)
